@@ -6,8 +6,8 @@
 //   in_bounds      computeCellIndexes(p)[d] < getNumberOfCellsAlongAxes()[d]      (exact)
 //   half_cell      |p[d] - centre(idx)[d]| <= res/2 + 16 eps S_d                  (S_d = max|bound_d| + 2 res)
 //   centre_maps    computeCellIndexes(computeCellCenterPosition(I)) == I          (exact)
-//   spacing        |c[i+1] - c[i] - res| <= 8 eps S_d
-//   cover          c[0] - res/2 <= lo_d + 8 eps S_d,  c[last] + res/2 >= hi_d - 8 eps S_d
+//   spacing        |c[i+1] - c[i] - res| <= 16 eps S_d
+//   cover          c[0] - res/2 <= lo_d + 16 eps S_d, c[last] + res/2 >= hi_d - 16 eps S_d
 // ("cover" = the union of the cells reaches both bounds; the library snaps cell centres to
 // multiples of the resolution, so the first cell need not *contain* lo -- not demanded.)
 //
@@ -19,7 +19,7 @@
 // Rounding bounds behind the generic tolerances (u = eps/2, centre c_n = fl(O + fl((n+.5) res)),
 // index n = trunc(fl(fl(p - O)/res))): |c_n - (O + (n+.5)res)| <= u(|prod_n| + |c_n|) <= 3uS, the
 // quotient costs 2u(n+1)res <= 4uS, hence excess over res/2 <= 7uS = 3.5 eps S (tolerance 16 eps S);
-// consecutive centres differ from res by <= 6uS = 3 eps S (tolerance 8 eps S).
+// consecutive centres differ from res by <= 6uS = 3 eps S (tolerance 16 eps S).
 //
 // "at most 1e7 cells" is honoured in both possible readings (per axis and in total): the product of
 // the per-axis cell counts is kept <= 1e7, large axes (up to 2e6 cells, the float quotient regime)
@@ -346,7 +346,7 @@ void grid_case(vh::Ctx & c, vh::Rng & r, const char * tname)
       Sc[d] / g4 <= ldexpl(1.0L, Tr<S>::mant - 3);
     any_exact = any_exact || exact[d];
     tol_half[d] = 16 * eps * Sc[d];
-    tol_sp[d] = 8 * eps * Sc[d];
+    tol_sp[d] = 16 * eps * Sc[d];
     bool decisive = tol_half[d] < R / 4;
     c.count("axes_total");
     if (decisive) {c.count("axes_decisive");}
@@ -520,11 +520,13 @@ void one_case(vh::Ctx & c, uint64_t idx)
 
 int main(int argc, char ** argv)
 {
-  return vh::run(argc, argv, "C13", {12000, 2000000}, one_case, [](vh::Ctx & c) {
-      // DESIGN C13: the half-cell oracle is decisive (16 eps S < res/4, an off-by-one cell cannot hide
-      // in the allowance) on at least 90 % of the axes this shard generated; otherwise the counter
-      // stays 0 and vcheck reports the run as inconclusive.
+  return vh::run(argc, argv, "C13", {40000, 2000000}, one_case, [](vh::Ctx & c) {
+      // DESIGN C13: the allowance is decisive (16 eps S < res/4, an off-by-one cell cannot hide in it)
+      // on at least 90 % of the axes this shard generated -- counted on the float axes alone, the
+      // double axes are always decisive; otherwise the counter stays 0 and vcheck reports the run
+      // as inconclusive.
       uint64_t t = c.counters["axes_total"], d = c.counters["axes_decisive"];
-      if (t > 0 && 10 * d >= 9 * t) {c.count("shards_with_ge_90pct_decisive_axes");}
+      uint64_t ft = c.counters["float_axes_total"], fd = c.counters["float_axes_decisive"];
+      if (t > 0 && 10 * d >= 9 * t && ft > 0 && 10 * fd >= 9 * ft) {c.count("shards_with_ge_90pct_decisive_axes");}
     });
 }
